@@ -15,6 +15,7 @@ export VERIF_TIER="$tier"
   flock 9
   go build -tags verif -o bin/vcheck ./cmd/vcheck || exit 90
   (cd /repo && go build -o "$VERIF_ROOT/bin/goverter" ./cmd/goverter) || exit 91
+  [ -d bin/gocache-template ] || tools/mkcache.sh >/dev/null 2>&1 || exit 92
 ) 9>bin/.lock
 rc=$?
 if [ $rc -ne 0 ]; then
@@ -23,4 +24,13 @@ if [ $rc -ne 0 ]; then
 fi
 export VERIF_GOVERTER="$VERIF_ROOT/bin/goverter"
 export VERIF_SCRATCH="${TMPDIR:-/tmp}"
-exec bin/vcheck "$prop" "$@"
+# scratch modules are compiled against a throw-away copy (hard links) of the template build cache, so that the
+# persistent Go build cache does not grow with every explored batch
+runcache="$(mktemp -d "$VERIF_SCRATCH/verif-gocache-XXXXXX")"
+cp -al bin/gocache-template/. "$runcache/" 2>/dev/null || cp -a bin/gocache-template/. "$runcache/"
+export VERIF_PERSISTENT_GOCACHE="$(go env GOCACHE)"
+export GOCACHE="$runcache"
+bin/vcheck "$prop" "$@"
+rc=$?
+rm -rf "$runcache"
+exit $rc
